@@ -19,7 +19,7 @@ import (
 // Descriptions come from known/annotations.json when present (hand-written root causes), else are generated.
 
 type triRec struct {
-	key                            uint64
+	key                             uint64
 	cluster, op, mode, pat, hay, wg string
 }
 
